@@ -1,0 +1,15 @@
+//go:build verif
+
+// Ghost lemma functions for /verif/govc (C21: the 2-byte short-topic
+// encoding is a bijection). Compiled only with the build tag `verif`;
+// never called.
+
+package packets
+
+func lemmaShortTopicIDRoundtrip(id uint16) uint16 {
+	return EncodeShortTopic(DecodeShortTopic(id))
+}
+
+func lemmaShortTopicNameRoundtrip(name string) string {
+	return DecodeShortTopic(EncodeShortTopic(name))
+}
